@@ -20,6 +20,11 @@
 //     drawn image continues the main timeline;
 //   - plain restart after a signature was released.
 //
+// A fraction of the runs (knob prockill, per mille, chosen by the run seed) does
+// not use those hand-made images at all: prockill.go runs the same real code in
+// a child process and SIGKILLs it on entry of a seed-chosen REAL system call
+// (strace fault injection); what the killed process left on disk is the image.
+//
 // Oracle, over RELEASED signatures only (Sign* returned nil to the caller):
 // one sign-bytes and one signature per (height, round, step) for ever; no
 // release below the highest released HRS; a timestamp-only re-request of the
@@ -39,7 +44,6 @@ import (
 	pvm "github.com/gnolang/gno/tm2/pkg/bft/privval"
 	"github.com/gnolang/gno/tm2/pkg/bft/types"
 	"github.com/gnolang/gno/tm2/pkg/crypto"
-	"github.com/gnolang/gno/tm2/pkg/crypto/ed25519"
 
 	"verif/sim/kernel"
 )
@@ -218,13 +222,13 @@ func (s *psim) restart(t *tl, why string) {
 	if pan != nil {
 		// C34 does not promise recovery; a validator that cannot start signs nothing.
 		s.r.Probe("restart_panicked")
-		s.c.Event("[%s] restart (%s): constructor panicked: %v", t.name, why, pan)
+		s.c.Event("[%s] restart (%s): constructor panicked: %v", t.name, why, strings.ReplaceAll(fmt.Sprint(pan), s.root, "$ROOT"))
 		t.dead = true
 		return
 	}
 	if err != nil {
 		s.r.Probe("restart_refused_state_file")
-		s.c.Event("[%s] restart (%s): constructor error: %v", t.name, why, err)
+		s.c.Event("[%s] restart (%s): constructor error: %v", t.name, why, strings.ReplaceAll(err.Error(), s.root, "$ROOT"))
 		t.dead = true
 		return
 	}
@@ -246,14 +250,12 @@ func (s *psim) clone(t *tl, name string) *tl {
 	return n
 }
 
-// sign issues one request to the timeline's validator and applies the oracle.
-// Returns "released", "refused", "crash:<where>" or "panic".
-func (s *psim) sign(t *tl, q req, sigMode int) (out string, detail string) {
-	chainID := chains[q.chain]
-	var vote *types.Vote
-	var prop *types.Proposal
+// build turns a request into the message the validator is asked to sign.
+func (s *psim) build(q req) (chainID string, vote *types.Vote, prop *types.Proposal, reqSB []byte) {
+	chainID = chains[q.chain]
 	if q.at.s == 1 {
 		prop = &types.Proposal{Type: types.ProposalType, Height: q.at.h, Round: q.at.r, POLRound: q.pol, BlockID: blockID(q.blk), Timestamp: tsOf(q.ts)}
+		reqSB = prop.SignBytes(chainID)
 	} else {
 		typ := types.PrevoteType
 		if q.at.s == 3 {
@@ -261,33 +263,69 @@ func (s *psim) sign(t *tl, q req, sigMode int) (out string, detail string) {
 		}
 		vote = &types.Vote{Type: typ, Height: q.at.h, Round: q.at.r, BlockID: blockID(q.blk), Timestamp: tsOf(q.ts),
 			ValidatorAddress: s.key.PubKey().Address(), ValidatorIndex: q.valIdx}
-	}
-	var reqSB []byte
-	if prop != nil {
-		reqSB = prop.SignBytes(chainID)
-	} else {
 		reqSB = vote.SignBytes(chainID)
 	}
+	return
+}
+
+// signBytesWithTS: the sign bytes of request q with its timestamp replaced.
+func (s *psim) signBytesWithTS(q req, ts time.Time) []byte {
+	chainID, vote, prop, _ := s.build(q)
+	if prop != nil {
+		prop.Timestamp = ts
+		return prop.SignBytes(chainID)
+	}
+	vote.Timestamp = ts
+	return vote.SignBytes(chainID)
+}
+
+// outcome is what the caller of Sign* observed: a panic, an error, or a
+// released message (sign bytes of the returned message, signature, timestamp).
+type outcome struct {
+	pan any
+	err error
+	sb  []byte
+	sig []byte
+	ts  time.Time
+}
+
+// sign issues one request to the timeline's validator and applies the oracle.
+// Returns "released", "refused", "crash:<where>" or "panic".
+func (s *psim) sign(t *tl, q req, sigMode int) (out string, detail string) {
+	chainID, vote, prop, reqSB := s.build(q)
 	issuedBefore := t.maxIssued
 	if q.at.cmp(t.maxIssued) > 0 {
 		t.maxIssued = q.at
 	}
 	t.signer.mode = sigMode
-	var err error
-	var pan any
+	var o outcome
 	func() {
 		defer func() {
 			if r := recover(); r != nil {
-				pan = r
+				o.pan = r
 			}
 		}()
 		if prop != nil {
-			err = t.pv.SignProposal(chainID, prop)
+			o.err = t.pv.SignProposal(chainID, prop)
 		} else {
-			err = t.pv.SignVote(chainID, vote)
+			o.err = t.pv.SignVote(chainID, vote)
 		}
 	}()
 	t.signer.mode = sigNormal
+	if o.pan == nil && o.err == nil {
+		if prop != nil {
+			o.sb, o.sig, o.ts = prop.SignBytes(chainID), prop.Signature, prop.Timestamp
+		} else {
+			o.sb, o.sig, o.ts = vote.SignBytes(chainID), vote.Signature, vote.Timestamp
+		}
+	}
+	return s.judge(t, q, reqSB, issuedBefore, o)
+}
+
+// judge is the C34 oracle over one observed outcome (t.maxIssued has already
+// been raised to q.at; issuedBefore is its value before this request).
+func (s *psim) judge(t *tl, q req, reqSB []byte, issuedBefore hrs, o outcome) (out string, detail string) {
+	pan, err := o.pan, o.err
 	if pan != nil {
 		if cs, ok := pan.(crashSentinel); ok {
 			return "crash:" + cs.where, ""
@@ -321,13 +359,7 @@ func (s *psim) sign(t *tl, q req, sigMode int) (out string, detail string) {
 		return "refused", err.Error()
 	}
 	// ---- released
-	var sb, sig []byte
-	var ts time.Time
-	if prop != nil {
-		sb, sig, ts = prop.SignBytes(chainID), prop.Signature, prop.Timestamp
-	} else {
-		sb, sig, ts = vote.SignBytes(chainID), vote.Signature, vote.Timestamp
-	}
+	sb, sig, ts := o.sb, o.sig, o.ts
 	s.nRel++
 	if !s.key.PubKey().VerifyBytes(sb, sig) {
 		s.fail("released_signature_invalid", "[%s] %v: Sign* returned nil but the returned signature does not verify over the returned message (timestamp %v)", t.name, q, ts)
@@ -346,8 +378,14 @@ func (s *psim) sign(t *tl, q req, sigMode int) (out string, detail string) {
 		}
 	} else {
 		if !bytes.Equal(reqSB, sb) {
-			s.fail("released_message_altered", "[%s] %v: first release for this HRS but the returned message differs from the requested one", t.name, q)
-			return "released", ""
+			// C34 allows exactly one alteration: "the same message with a different timestamp"
+			// gets the ORIGINAL signature and timestamp - also when the original was persisted
+			// by a process that died before releasing it (first release for the oracle)
+			if !bytes.Equal(s.signBytesWithTS(q, ts), sb) {
+				s.fail("released_message_altered", "[%s] %v: first release for this HRS but the returned message differs from the requested one by more than its timestamp", t.name, q)
+				return "released", ""
+			}
+			s.r.Probe("first_release_carried_persisted_unreleased_timestamp")
 		}
 		t.released[q.at] = rel{sb: sb, sig: sig, ts: ts, q: q}
 	}
@@ -436,14 +474,16 @@ func readOrNil(path string) []byte {
 	return b
 }
 
-// battery: what a restarted validator is asked right after a crash around the
-// save of `attempt` (never released): conflicting and regressing requests.
-func (s *psim) battery(t *tl, attempt req, lastRel *req) {
+// batteryReqs lists the adversarial requests around an interrupted attempt
+// (nil = the process died outside any request) and the last release.
+func batteryReqs(attemptp *req, lastRel *req) []req {
 	qs := []req{}
-	c := attempt
-	c.blk = (attempt.blk + 1) % 3
-	c.kind, c.tsOnly = "conflict-with-unreleased-attempt", false
-	qs = append(qs, c)
+	if attemptp != nil {
+		c := *attemptp
+		c.blk = (attemptp.blk + 1) % 3
+		c.kind, c.tsOnly = "conflict-with-unreleased-attempt", false
+		qs = append(qs, c)
+	}
 	if lastRel != nil {
 		x := *lastRel
 		x.blk = (lastRel.blk + 1) % 3
@@ -466,13 +506,23 @@ func (s *psim) battery(t *tl, attempt req, lastRel *req) {
 			qs = append(qs, z)
 		}
 	}
-	a := attempt
-	a.kind = "attempt-again"
-	qs = append(qs, a)
-	c2 := attempt
-	c2.blk = (attempt.blk + 2) % 3
-	c2.kind, c2.tsOnly = "conflict-after-attempt-again", false
-	qs = append(qs, c2)
+	if attemptp != nil {
+		attempt := *attemptp
+		a := attempt
+		a.kind = "attempt-again"
+		qs = append(qs, a)
+		c2 := attempt
+		c2.blk = (attempt.blk + 2) % 3
+		c2.kind, c2.tsOnly = "conflict-after-attempt-again", false
+		qs = append(qs, c2)
+	}
+	return qs
+}
+
+// battery: what a restarted validator is asked right after a crash around the
+// save of `attempt` (never released): conflicting and regressing requests.
+func (s *psim) battery(t *tl, attempt req, lastRel *req) {
+	qs := batteryReqs(&attempt, lastRel)
 	for _, q := range qs {
 		if s.stop || t.dead {
 			return
@@ -610,7 +660,20 @@ func runPrivval(c *kernel.Choices, p kernel.Params) *kernel.Result {
 	s.root = filepath.Join(scratch, fmt.Sprintf("pv-%d-%d", os.Getpid(), runCounter.Add(1)))
 	os.RemoveAll(s.root)
 	defer os.RemoveAll(s.root)
-	s.key = ed25519.GenPrivKeyFromSecret([]byte("verif-privval-engine"))
+	s.key = engineKey()
+
+	// a fraction of the runs (knob prockill, per mille; a function of the run seed) crash the
+	// real code at real system-call boundaries by killing a child process: prockill.go
+	if pm := p.KnobInt("prockill", pkDefaultPermille); pm > 0 && pkSelected(c.Seed, pm) {
+		if strace, self := pkStracePath(); strace == "" || self == "" {
+			s.r.Probe("prockill_unavailable")
+		} else {
+			if err := os.MkdirAll(s.root, 0o700); err != nil {
+				kernel.Harnessf("mkdir: %v", err)
+			}
+			return s.runProcKill()
+		}
+	}
 
 	main := &tl{name: "main", released: map[hrs]rel{}}
 	main.dir = filepath.Join(s.root, "main")
